@@ -24,6 +24,19 @@ CHECKS["C04"] = (
     "Trusts fractions.Fraction; Nilpotent*/Drastic* laws on inexact random doubles follow the fragile-case rule of "
     "DESIGN §4; one open known finding (HamacherSum cancellation near (1,1)).", "§5 C04")
 
+CHECKS["C03"] = (
+    "Hypothesis-generated term parameterisations and inputs vs closed-form reference (docs) + range/NaN/monotone/array laws",
+    "Generated valid parameterisations of all 20 shape terms + Constant (3-decimal grid, dyadic grid, free doubles; both "
+    "directions, vertical edges, infinite shoulders, heights) evaluated at interior points, every breakpoint and its two "
+    "floating-point neighbours, +-inf and NaN, as scalar/0-D/1-D/2-D, against an independent closed-form reference.",
+    "Reference written from the docstrings (vlib/refmath.py); conditioning-aware tolerance (DESIGN §4).", "§5 C03")
+CHECKS["C11"] = (
+    "Hypothesis-generated monotonic terms and degrees: round-trip membership(tsukamoto(y)) == y, monotone z(y), documented inverse, refusal",
+    "Round trip, monotonicity of z(y), array==elementwise and agreement with the documented inverse for Arc, Concave, "
+    "Ramp, Sigmoid (both directions), SShape, ZShape over three numeric regimes, heights in (0,1], y incl. h*2^-k, "
+    "h*(1-2^-k), h/2 and neighbours; every other registered term class must refuse.",
+    "y restricted to [h*2^-40, h*(1-2^-40)] (overflow of the exact inverse is a representation limit).", "§5 C11")
+
 NOT_APPLICABLE = {}
 
 
